@@ -59,6 +59,7 @@ PROPS["C02"] = {
         rapid("write-composition", "rtpconn", "TestVerif_C02_WriteComposition", 800, 30000),
         rapid("rewrite-diff", "rtpconn", "TestVerif_C02_RewriteDiff", 8000, 200000),
         rapid("concurrent-receivers", "rtpconn", "TestVerif_C02_ConcurrentReceivers", 400, 10000),
+        rapid("long-withholding", "rtpconn", "TestVerif_C02_LongWithholding", 16, 160, quick_shards=16),
     ],
     "assumptions": ["source packets carry no RTP header extension (the receive loop strips them before caching)",
                     "picture-id continuity is asserted on in-order histories only, as the statement quantifies"],
@@ -161,6 +162,7 @@ PROPS["C08"] = {
         rapid("makepassword-roundtrip", "galenectl", "TestVerif_C08_MakePasswordRoundTrip", 1200, 8000),
         rapid("login-machine", "rtpconn", "TestVerif_C08_LoginMachine", 250, 2000, quick_shards=4),
         rapid("api-reads-vs-logins", "webserver", "TestVerif_C08_ApiReadsVsLogins", 160, 1200, shards=8, quick_shards=4),
+        rapid("dedicated-subgroup-file", "webserver", "TestVerif_C08_DedicatedSubgroupFile", 200, 1600, shards=8, quick_shards=4),
     ],
     "technique": "property-based testing (rapid) against an independent decision procedure; metamorphic login-after-moderation machine",
     "assumptions": ["bcrypt inputs restricted to NUL-free strings of <=72 bytes, pbkdf2 keys >=16 bytes (limits of the primitives, not galene's claim)"],
